@@ -663,3 +663,31 @@ pub fn explore(f: &dyn Fn() -> Verdict, seed: u64, lim: &Limits) -> Report {
     let _ = Node::Var(0);
     rep
 }
+
+/// kinds (0 input, 1 oracle output, 2 RNG draw) of the variables a value depends on, with their indices
+pub fn term_vars(x: SF) -> Vec<(u32, u8)> {
+    if x.t == 0 {
+        return vec![];
+    }
+    ARENA.with(|a| {
+        let a = a.borrow();
+        let mut memo = HashMap::new();
+        super::smt::supp(&a, x.t, &mut memo).into_iter().map(|v| (v, a.var_kind[v as usize])).collect()
+    })
+}
+/// Some(index) if `x` is exactly one fresh RNG variable
+pub fn as_rng_var(x: SF) -> Option<u32> {
+    if x.t == 0 {
+        return None;
+    }
+    ARENA.with(|a| {
+        let a = a.borrow();
+        match a.nodes[x.t as usize] {
+            Node::Var(i) if a.var_kind[i as usize] == 2 => Some(i),
+            _ => None,
+        }
+    })
+}
+pub fn rng_draws() -> usize {
+    RNG_DRAWS.with(|c| c.get())
+}
